@@ -61,6 +61,39 @@ def legacy_streams(rng, n):
     return out
 
 
+REL: dict = {}
+
+
+def release_cross(ctx, models, gen, loads):
+    vals = (models[::3] + gen[:300]) if ctx.quick else (models + gen)
+    lds = loads[:600] if ctx.quick else loads
+    res = sc.record(ctx, {"dump": vals, "modes": ["dumps"], "load": lds}, release=True)
+    if res is None:
+        ctx.note("no execnet release installed next to the tree: cross-version part skipped")
+        return []
+    REL["version"] = res.get("execnet")
+    out = []
+    for c in res["cases"]:
+        c["side"] = "release"
+        out.append(c)
+    # what the release wrote, loaded by the tree under test
+    rel_bytes = [c["out"][1] for c in res["cases"] if c["k"] == "dump" and c["out"][0] == "bytes"]
+    back = sc.record(ctx, {"dump": [], "load": [{"inp": b, "cfg": [False, False], "stream": i % 2 == 1} for i, b in enumerate(rel_bytes)]})
+    for c in back["cases"]:
+        c["side"] = "tree<-release"
+        out.append(c)
+    # what the tree wrote, loaded by the release
+    mine = sc.record(ctx, {"dump": vals, "modes": ["dumps"], "load": []})
+    my_bytes = [c["out"][1] for c in mine["cases"] if c["out"][0] == "bytes"]
+    there = sc.record(ctx, {"dump": [], "load": [{"inp": b, "cfg": [False, False]} for b in my_bytes]}, release=True)
+    for c in there["cases"]:
+        c["side"] = "release"
+        c["from"] = "tree"
+        out.append(c)
+    ctx.note(f"release {REL['version']}: {len(res['cases'])} cases against the reference, {len(back['cases'])} of its outputs loaded by the tree, {len(there['cases'])} tree outputs loaded by it")
+    return out
+
+
 def run(ctx):
     rng = random.Random(ctx.seed + 12)
     r = sc.model_check(ctx, "MCSerRound", "MCSerRound.cfg" if ctx.quick else "MCSerRoundBig.cfg", ACTIONS)
@@ -85,6 +118,11 @@ def run(ctx):
         for c in res["cases"]:
             c["python"] = res["python"]
         cases += res["cases"]
+    # an independent binary of the same format: the execnet release installed in the venv (site-packages).  Its dumps() output and
+    # its loads() of the legacy streams are judged against the same reference (this validates the reference as "format v2 as
+    # shipped"); then each side loads what the other side wrote.
+    rel = release_cross(ctx, models, gen, loads)
+    cases += rel
     verdicts = sc.judge(ctx, cases)
     nontrivial = set()
     for c, vd in zip(cases, verdicts):
@@ -94,6 +132,9 @@ def run(ctx):
             nontrivial.add(repr((c["inp"], c["cfg"])))
         if vd == "ok" or vd.startswith("C01.") or vd.startswith("C13."):
             continue
+        if c.get("side") == "release":
+            # the released binary itself deviates from the reference: the reference would not be "format v2 as shipped"
+            ctx.machinery(f"execnet release in site-packages disagrees with the reference spec ({vd}) on {sc.short(c, 300)}")
         if vd.startswith("SPEC."):
             ctx.machinery(f"reference spec inconsistent on {sc.short(c)}")
         ctx.violation(f"{vd}: {sc.short(c, 300)}", c)
@@ -108,7 +149,10 @@ def run(ctx):
                 "non-trivial = encoding longer than one leaf / any legacy stream",
         "samples": [sc.short(c, 260) for c in cases[:1] + [c for c in cases if c["k"] == "load"][:3]],
         "interpreters": per_interp, "legacy_load_cases": nload,
+        "release_cross": {"release": REL.get("version"), "release_cases_vs_reference": sum(1 for c in rel if c.get("side") == "release"),
+                          "tree_loads_release_bytes": sum(1 for c in rel if c.get("side") == "tree<-release"),
+                          "release_loads_tree_bytes": sum(1 for c in rel if c.get("from") == "tree")},
     })
-    ctx.assumptions += ["no execnet release < 2.1 and no Python 2 interpreter is available offline: the format is pinned against the TLA+ reference instead",
+    ctx.assumptions += ["no execnet release < 2.1 and no Python 2 interpreter is available offline: the format is pinned against the TLA+ reference, and the reference against the one release that is installed (site-packages)",
                         "projection Python object <-> model value (mbt/pyval.py) is trusted"]
     return "model_checking"
